@@ -149,6 +149,7 @@ class SimNet:
         self.owner_classes = ()
         self.nconn = 0
         self.slow_by = 0
+        self.slow2_by = 0
         self.cut_next = None
         self.sched = None  # E3: scheduler to notify at every socket call
         self.socket_guard = None  # E3: callable(sock, what) checking who uses a socket
@@ -534,12 +535,15 @@ class SimSocket:
                     else:
                         app.append(lab)
                 c = net.choose("recv", app)
-        if c not in ("ok", "short1", "cut_cr", "eintr", "slow"):
+        if c not in ("ok", "short1", "cut_cr", "eintr", "slow", "slow2"):
             net.hard.append((net.call, self.addr, c))
         if c == "ok":
             data, tags = conn.take(limit)
         elif c == "slow":  # the reply takes a while: time passes during the call
             net.clock.advance(net.slow_by)
+            data, tags = conn.take(limit)
+        elif c == "slow2":  # a longer wait (still within the socket timeout the harness configured)
+            net.clock.advance(net.slow2_by)
             data, tags = conn.take(limit)
         elif c == "short1":
             data, tags = conn.take(1)
